@@ -2,7 +2,7 @@
    WriteFile / WriteReader followed by ReadFile return exactly the bytes given, for every size;
    SafeWriteReader never alters a path that exists. *)
 From AF Require Import Lib.Bytes Lib.Path Lib.Ops Gen.Consts Model.MemFile Model.MemFs Model.IOUtil
-  Proofs.BytesLemmas Proofs.PathProof Proofs.MemFsBasics Proofs.MemCreate.
+  Proofs.BytesLemmas Proofs.PathProof Proofs.MemFsBasics Proofs.MemBelow Proofs.MemCreate.
 Local Open Scope Z_scope.
 
 (* ------------------------------------------------------------------------------------ *)
@@ -117,7 +117,8 @@ Definition wr_inv (s : mst) (p : str) (h f : nat) (data : bytes) (a : Z) : Prop 
   exists n, lookup s (normalize_path p) = Some f /\ get_node s f = Some n /\ ndata n = data /\ ndir n = false /\
             nth_error (mhandles s) h = Some (mkH f a 0 false false).
 
-(* sane state for WriteFile(p): p is a regular file, or p is absent and its parent directory is present *)
+(* sane state for WriteFile(p): p is a regular file, or p is absent and its parent entry is present
+   (a directory: the open succeeds; a regular file: the open is refused with ENOTDIR) *)
 Definition sane_for (s : mst) (p : str) : Prop :=
   match lookup s (normalize_path p) with
   | Some f => exists n, get_node s f = Some n /\ ndir n = false
@@ -135,16 +136,19 @@ Lemma set_file_mode_found st nm m f :
   lookup st (normalize_path nm) = Some f -> set_file_mode st nm m = (upd_node st f (with_mode m), ROk).
 Proof. intros H. unfold set_file_mode. now rewrite H. Qed.
 
+(* the open succeeds — or is refused with ENOTDIR (the nearest existing ancestor of the absent
+   name is a regular file: memmap.go lockfreeBelowFile) *)
 Lemma open_for_write s p perm s1 r :
   sane_for s p -> m_step s (OpenFile p io_write_flags perm) = (s1, r) ->
-  exists f, r = RHandle (length (mhandles s)) /\ wr_inv s1 p (length (mhandles s)) f [] 0 /\
-            (forall k x, lookup s k = Some x -> k <> normalize_path p -> lookup s1 k = Some x).
+  (exists f, r = RHandle (length (mhandles s)) /\ wr_inv s1 p (length (mhandles s)) f [] 0 /\
+            (forall k x, lookup s k = Some x -> k <> normalize_path p -> lookup s1 k = Some x)) \/
+  r = RErr (EW KENOTDIR).
 Proof.
   intros Hs H. rewrite m_step_bump in H. cbn [m_step_raw] in H. unfold m_openfile in H.
   rewrite wflags_excl, wflags_create, wflags_append, wflags_trunc, wflags_ro in H. cbn [andb negb] in H.
   unfold sane_for in Hs. set (name := normalize_path p) in *.
   destruct (lookup s name) as [f|] eqn:El.
-  - destruct Hs as [n [Hn Hnd]]. unfold alloc_handle in H. cbn [fst snd] in H.
+  - left. destruct Hs as [n [Hn Hnd]]. unfold alloc_handle in H. cbn [fst snd] in H.
     inversion H; subst s1 r; clear H. exists f. rewrite upd_node_handles. split; [reflexivity|]. split.
     + exists (with_mtime (mclock s) (with_data [] n)).
       unfold lookup, get_node. cbn [bump mdata mheap mhandles]. rewrite upd_node_data.
@@ -152,7 +156,8 @@ Proof.
       * exact (get_upd_same _ _ _ _ Hn).
       * apply nth_error_snoc.
     + intros k x Hk _. cbn [bump lookup mdata]. unfold lookup. cbn [mdata]. now rewrite upd_node_data.
-  - destruct Hs as [d [dn [Hp Hd]]].
+  - destruct (below_file s name) eqn:Hbf; [right; now inversion H|]. left.
+    destruct Hs as [d [dn [Hp Hd]]].
     assert (Hne : parent_key name <> name) by (intros E; rewrite E in Hp; congruence).
     rewrite m_create_node_attach in H.
     destruct (attach_parent_present s name (new_file name (mclock s)) 0 d dn eq_refl Hp Hd Hne)
@@ -237,7 +242,7 @@ Theorem write_file_holds s p b perm s' :
 Proof.
   intros Hs H. unfold write_file in H.
   destruct (m_step s (OpenFile p io_write_flags perm)) as [s1 r1] eqn:E1.
-  destruct (open_for_write _ _ _ _ _ Hs E1) as [f [-> [Hw _]]].
+  destruct (open_for_write _ _ _ _ _ Hs E1) as [[f [-> [Hw _]]] | ->]; [|discriminate H].
   destruct (hwrite_append _ _ _ _ _ b Hw) as [s2 [E2 [Hw2 _]]]. rewrite E2 in H.
   destruct (hclose_rw _ _ _ _ _ _ Hw2) as [s3 [E3 [Hh _]]]. rewrite E3 in H.
   rewrite Z.ltb_irrefl in H. inversion H; subst. exact Hh.
@@ -294,9 +299,10 @@ Definition parent_present (s : mst) (name : str) : Prop :=
    directory!) a new file node is bound to the name *)
 Lemma create_for_write s p s1 r :
   parent_present s (normalize_path p) -> m_step s (Create p) = (s1, r) ->
-  exists f, r = RHandle (length (mhandles s)) /\ wr_inv s1 p (length (mhandles s)) f [] 0 /\
+  (exists f, r = RHandle (length (mhandles s)) /\ wr_inv s1 p (length (mhandles s)) f [] 0 /\
             (forall k x, lookup s k = Some x -> k <> normalize_path p -> lookup s1 k = Some x) /\
-            (forall x n, get_node s x = Some n -> exists n', get_node s1 x = Some n').
+            (forall x n, get_node s x = Some n -> exists n', get_node s1 x = Some n')) \/
+  r = RErr (EW KENOTDIR).
 Proof.
   intros [d [dn [Hp [Hd Hne]]]] H. rewrite m_step_bump in H. cbn [m_step_raw] in H. unfold m_create in H.
   set (name := normalize_path p) in *.
@@ -304,7 +310,7 @@ Proof.
              | Some f => match get_node s f with Some n => if ndir n then None else Some f | None => None end
              | None => None end) in *.
   destruct ex as [f|] eqn:Eex.
-  - (* truncate in place *)
+  - (* truncate in place *) left.
     unfold ex in Eex. destruct (lookup s name) as [f0|] eqn:El; [|discriminate].
     destruct (get_node s f0) as [n|] eqn:En; [|discriminate]. destruct (ndir n) eqn:End; [discriminate|].
     inversion Eex; subst f0; clear Eex.
@@ -320,7 +326,8 @@ Proof.
       destruct (Nat.eq_dec f x) as [->|Hfx].
       * eexists. exact (get_upd_same _ _ _ _ Hx).
       * exists n0. rewrite <- Hx. exact (get_upd_other _ _ _ _ Hfx).
-  - rewrite m_create_node_attach in H.
+  - destruct (below_file s name) eqn:Hbf; [right; now inversion H|]. left.
+    rewrite m_create_node_attach in H.
     destruct (attach_parent_present s name (new_file name (mclock s)) 0 d dn eq_refl Hp Hd Hne)
       as [Hmd [Hhd [Hck [Hlen [Hf [Hdn Hoth]]]]]].
     set (f := length (mheap s)) in *. set (s3 := attach s name (new_file name (mclock s)) 0) in *.
@@ -344,29 +351,33 @@ Proof.
   apply nth_error_None in E. lia.
 Qed.
 
-Lemma m_mkdir_attach s D perm : lookup s (normalize_path D) = None ->
+Lemma m_mkdir_attach s D perm : lookup s (normalize_path D) = None -> below_file s (normalize_path D) = false ->
   m_mkdir s D perm =
   set_file_mode (attach s (normalize_path D)
                    (with_mode (Z.lor mode_dir (Z.land perm chmod_bits)) (new_dir (normalize_path D) (mclock s)))
                    (Z.land perm chmod_bits))
                 (normalize_path D) (Z.lor (Z.land perm chmod_bits) mode_dir).
-Proof. intros H. unfold m_mkdir. rewrite H. reflexivity. Qed.
+Proof. intros H Hb. unfold m_mkdir. rewrite H, Hb. reflexivity. Qed.
 
-(* MemMapFs.MkdirAll(D): always nil; afterwards D is present; nothing that was present is lost.
+(* MemMapFs.MkdirAll(D): nil, afterwards D is present and nothing that was present is lost — or
+   ENOTDIR (D is absent and its nearest existing ancestor is a regular file).
    (On an existing path — directory or not — nothing changes at all: see mkdirall_existing.) *)
 Lemma mkdirall_result s D perm s1 r :
   mem_wf s -> m_step s (MkdirAll D perm) = (s1, r) ->
-  r = ROk /\ (exists d dn, lookup s1 (normalize_path D) = Some d /\ get_node s1 d = Some dn) /\
-  (forall k x, lookup s k = Some x -> lookup s1 k = Some x) /\
-  (length (mheap s) <= length (mheap s1))%nat.
+  (r = ROk /\ (exists d dn, lookup s1 (normalize_path D) = Some d /\ get_node s1 d = Some dn) /\
+   (forall k x, lookup s k = Some x -> lookup s1 k = Some x) /\
+   (length (mheap s) <= length (mheap s1))%nat) \/
+  r = RErr (EW KENOTDIR).
 Proof.
   intros Hwf H. rewrite m_step_bump in H. cbn [m_step_raw] in H. unfold m_mkdirall in H.
   set (name := normalize_path D) in *.
   destruct (lookup s name) as [d|] eqn:El.
-  - unfold m_mkdir in H. fold name in H. rewrite El in H. cbn [ek EW errk_eqb fst snd] in H. inversion H; subst s1 r; clear H.
+  - left. unfold m_mkdir in H. fold name in H. rewrite El in H. cbn [ek EW errk_eqb fst snd] in H. inversion H; subst s1 r; clear H.
     split; [reflexivity|]. split; [|split; [now intros | reflexivity]].
     destruct (get_node_of_lt s d (Hwf _ _ El)) as [dn Hdn]. exists d, dn. now split.
-  - fold name in El. rewrite (m_mkdir_attach s D perm El) in H. fold name in H.
+  - fold name in El. destruct (below_file s name) eqn:Hbf.
+    { right. unfold m_mkdir in H. fold name in H. rewrite El, Hbf in H. cbn [ek EW errk_eqb fst snd] in H. now inversion H. }
+    left. rewrite (m_mkdir_attach s D perm El Hbf) in H. fold name in H.
     set (nd := with_mode _ _) in H.
     destruct (attach_general s name nd (Z.land perm chmod_bits)) as [Hl [Hlt [Hoth [Hhd Hck]]]].
     set (s3 := attach s name nd (Z.land perm chmod_bits)) in *. set (f := length (mheap s)) in *.
@@ -406,12 +417,12 @@ Proof.
       change (normalize_path []) with s_slash. destruct (lookup s s_slash) as [r0|] eqn:Er; [|congruence].
       destruct (get_node_of_lt s r0 (Hwf _ _ Er)) as [rn Hrn]. now exists r0, rn.
     - destruct (m_step s (MkdirAll D 511)) as [s1 r1] eqn:E1.
-      destruct (mkdirall_result _ _ _ _ _ Hwf E1) as [-> [Hd _]]. exists s1. now split. }
+      destruct (mkdirall_result _ _ _ _ _ Hwf E1) as [[-> [Hd _]] | ->]; [exists s1; now split | discriminate H]. }
   clear H. destruct Hpre as [s1 [H [d [dn [Hd Hdn]]]]]. unfold io_create_copy in H.
   destruct (m_step s1 (Create p)) as [s2 r2] eqn:E2.
   assert (Hpp : parent_present s1 name).
   { exists d, dn. rewrite Hpk. split; [exact Hd|]. split; [exact Hdn|]. rewrite <- Hpk. exact Hpne. }
-  destruct (create_for_write _ _ _ _ Hpp E2) as [f [-> [Hw [Hlk Hval]]]].
+  destruct (create_for_write _ _ _ _ Hpp E2) as [[f [-> [Hw [Hlk Hval]]]] | ->]; [|discriminate H].
   destruct (io_copy_mem p _ f (io_reads chunks) _ _ Hw) as [s3 [E3 [Hw3 [Hl3 Hh3]]]].
   rewrite E3 in H. cbn [app] in Hw3. rewrite io_reads_concat in Hw3.
   destruct (hclose_rw _ _ _ _ _ _ Hw3) as [s4 [E4 [Hh4 [Hl4 Hlen4]]]]. rewrite E4 in H.
